@@ -21,6 +21,8 @@
 package compile
 
 import (
+	"fmt"
+
 	"go.uber.org/thriftrw/ast"
 	"go.uber.org/thriftrw/wire"
 )
@@ -134,6 +136,16 @@ func (s *ServiceSpec) Link(scope Scope) error {
 
 		if err := parent.Link(scope); err != nil {
 			return compileError{Target: s.Name, Reason: err}
+		}
+
+		for p := parent; p != nil; p = p.Parent {
+			if p == s {
+				return compileError{
+					Target: s.Name,
+					Reason: fmt.Errorf(
+						"service %q inherits from itself", s.Name),
+				}
+			}
 		}
 
 		s.Parent = parent
